@@ -457,7 +457,7 @@ func c06GenerateSpace(c *fw.Ctx) {
 			tmpl{"h" + m + "k", "CNAME", m + "-t"}, // inside a label
 		)
 	}
-	c.Space("generate", fmt.Sprintf("$GENERATE: ranges %v × %d templates (every ${offset[,width[,base]]} with offset ∈ {-1,0,1,10}, width ∈ {0,1,3}, base ∈ {d,o,x,X}; offsets ±2^31, ±2^63 and their neighbours; $, $$, \\$, trailing $, several $ per template, malformed modifiers, other escapes next to a $, escaped backslashes next to a $; each placed at the end / start / inside of the owner, in a CNAME target and in an A address) and the large ranges %v with one template; steps of 2^31 … 2^63-1 (accepted with exactly the start value, or refused); explicit TTL 7; origins {\".\",\"example.\"}; followed by a record line with explicit owner and TTL; non-trivial: the range is valid and the template contains a $", ranges, len(tmpls), big), true,
+	c.Space("generate", fmt.Sprintf("$GENERATE: ranges %v × %d templates (every ${offset[,width[,base]]} with offset ∈ {-1,0,1,10}, width ∈ {0,1,3}, base ∈ {d,o,x,X}; offsets ±2^31, ±2^63 and their neighbours; $, $$, \\$, trailing $, several $ per template, malformed modifiers, other escapes next to a $, escaped backslashes next to a $; each placed at the end / start / inside of the owner, in a CNAME target and in an A address) and the large ranges %v with one template; steps of 2^31 … 2^63-1 (accepted with exactly the start value, or refused); templates ending in a backslash (every step treated like the first); explicit TTL 7; origins {\".\",\"example.\"}; followed by a record line with explicit owner and TTL; non-trivial: the range is valid and the template contains a $", ranges, len(tmpls), big), true,
 		func(emit func(func(*fw.R))) {
 			one := func(rng string, t tmpl) {
 				emit(func(r *fw.R) {
@@ -487,6 +487,37 @@ func c06GenerateSpace(c *fw.Ctx) {
 			for _, rng := range big {
 				one(rng, tmpl{"h${0,5,d}", "A", "10.1.${0,4,x}.1"})
 				one(rng, tmpl{"h$", "CNAME", "t"})
+			}
+			// a backslash at the very end of the template (behind it the line ends): whatever the library makes of it — an
+			// error, or the backslash dropped — it makes the same of it in every step: "every $ … replaced by the iterator
+			// value" holds for the second step as for the first (escape state may not leak from the end of one generated line
+			// into the start of the next)
+			for _, tm := range [][2]string{{"$", `10.0.0.$\`}, {"h$", `10.0.0.1\`}, {"$.sub", `10.0.$.1\`}, {`\$$`, `10.0.0.$\`}} {
+				tm := tm
+				emit(func(r *fw.R) {
+					r.Nontrivial()
+					text := "first.example. 3 IN A 192.0.2.1\n$GENERATE 4-6 " + tm[0] + " 7 IN A " + tm[1] + "\nlast.example. 9 IN A 192.0.2.2\n"
+					zp := dns.NewZoneParser(strings.NewReader(text), "example.", "z")
+					var got []string
+					for rr, ok := zp.Next(); ok && len(got) < 20; rr, ok = zp.Next() {
+						got = append(got, rr.String())
+					}
+					if zp.Err() != nil {
+						if len(got) > 1 {
+							r.Fail("generate/trailing-backslash", "%q: an error (%v) after %d generated records: the steps are not treated alike", text, zp.Err(), len(got)-1)
+						}
+						return
+					}
+					// accepted: the three generated lines differ in nothing but the iterator value
+					if len(got) != 5 {
+						r.Fail("generate/trailing-backslash", "%q: %d records %q, want first, three generated, last", text, len(got), got)
+						return
+					}
+					norm := func(s string, it string) string { return strings.ReplaceAll(s, it, "#") }
+					if a, b, c := norm(got[1], "4"), norm(got[2], "5"), norm(got[3], "6"); a != b || b != c {
+						r.Fail("generate/trailing-backslash", "%q: the generated records %q differ in more than the iterator value: a '$' of a later step was not replaced (escape state carried over the end of the generated line)", text, got[1:4])
+					}
+				})
 			}
 			// steps beyond 2^31-1 (the limit BIND documents; the library takes any positive int64): whether such a
 			// directive is accepted is not fixed by the statement, but if it is, it expands to one record per step of
